@@ -109,7 +109,8 @@ Definition attr_wf (a : attr) : Prop :=
   match a with
   | AOrigin v => byte v
   | AAsPath s => Forall seg_wf s
-  | ANextHop x | AOriginator x => blen x = 4
+  | ANextHop x => blen x = 4 \/ blen x = 16   (* the decoder takes an IPv6 address in NEXT_HOP too *)
+  | AOriginator x => blen x = 4
   | AMed v | ALocalPref v => u32 v
   | AAtomic => True
   | AAggregator asn addr => u32 asn /\ blen addr = 4
@@ -127,7 +128,7 @@ Proof.
   - reflexivity.
   - cbn -[dec_segs enc_segs]. rewrite segs_roundtrip; [reflexivity|exact H|].
     clear H. induction s as [|[t m] s IH]; cbn; [lia|]. rewrite app_length. cbn. lia.
-  - cbn -[blen]. rewrite H. reflexivity.
+  - destruct H as [H|H]; cbn -[blen]; rewrite H; reflexivity.
   - cbn -[be32 de32 blen]. rewrite blen_be32. cbn -[be32 de32]. now rewrite be32_de32.
   - cbn -[be32 de32 blen]. rewrite blen_be32. cbn -[be32 de32]. now rewrite be32_de32.
   - reflexivity.
